@@ -204,6 +204,20 @@ def run(ctx):
                              hdr(seen, k), [v])
             if reply.message != resp_body:
                 ctx.fail("caller did not receive the response body", meta, reply.message[:40], resp_body[:40])
+            if rng.random() < 0.3:
+                # the same Request object sent again (a retry): the same exchange again
+                del srv.httpd.seen[:]
+                try:
+                    reply2 = t.send(req)
+                except Exception as e:
+                    ctx.fail("sending the same request again failed", meta, repr(e), "a reply")
+                    continue
+                seen2 = srv.httpd.seen[-1] if srv.httpd.seen else None
+                if seen2 is None or seen2["body"] != seen["body"] or reply2.message != resp_body \
+                        or any(hdr(seen2, k) != [v] for k, v in headers.items()):
+                    ctx.fail("the same request sent again is not the same exchange", meta,
+                             None if seen2 is None else [seen2["body"][:40], reply2.message[:40]],
+                             [seen["body"][:40], resp_body[:40]])
         # ---- the SOAPAction a real client sends (declared in the WSDL, non-ASCII included), over the real transport
         for action in ("urn:act", "caf\u00e9-\u00fcber", "\u03a9mega", ""):
             wsdl = wsdlkit.wsdl_doc('<xsd:element name="f"><xsd:complexType><xsd:sequence/></xsd:complexType>'
@@ -237,7 +251,8 @@ def run(ctx):
                 opn = rng.choice(["f", "g", "h"])
                 if rng.random() < 0.4:
                     user_headers = rng.choice([{}, {"X-Tok": "t%d" % step}, {"SOAPAction": '"urn:forced"'},
-                                               {"Content-Type": "application/soap+xml", "X-Q": "q"}])
+                                               {"Content-Type": "application/soap+xml", "X-Q": "q"},
+                                               {"X-Empty": "", "X-Zero": "0"}])
                     c.set_options(headers=user_headers)
                 before = dict(user_headers)
                 del srv.httpd.seen[:]
@@ -319,8 +334,17 @@ def run(ctx):
             proxy.close()
         # ---- statuses
         reqs, reals = [], []
-        for status in list(range(200, 600, 7)) + [200, 201, 202, 204, 299, 300, 301, 304, 400, 401, 403, 404, 500, 503, 599]:
+        import logging
+        status_list = list(range(200, 600, 7)) + [200, 201, 202, 204, 299, 300, 301, 304, 400, 401, 403, 404, 500, 503, 599]
+        # (the second pass runs with debug logging switched on for suds: what is delivered does not depend on it)
+        sink = logging.NullHandler()
+        for status, debug in [(s_, False) for s_ in status_list] + [(s_, True) for s_ in (200, 204, 400, 401, 404, 500, 503)]:
             body = b"<e>%d</e>" % status
+            slog = logging.getLogger("suds")
+            old_level = slog.level
+            if debug:
+                slog.addHandler(sink)
+                slog.setLevel(logging.DEBUG)
             loc = [("Location", srv.url("/elsewhere"))] if status in (301, 302, 303, 307, 308) and rng.random() < 0.5 else []
             srv.httpd.plan = (lambda h, status=status, body=body, loc=loc:
                               {"status": 200, "body": b"<moved/>"} if h.path == "/elsewhere"
@@ -334,8 +358,12 @@ def run(ctx):
                 real = ["TransportError", e.httpcode, e.fp.read() if e.fp else b""]
             except Exception as e:
                 real = ["other", repr(e)]
-            meta = {"status": status, "redirect": bool(loc)}
-            ctx.case(("status", status, bool(loc)), status != 200)
+            finally:
+                if debug:
+                    slog.setLevel(old_level)
+                    slog.removeHandler(sink)
+            meta = {"status": status, "redirect": bool(loc), "debug_logging": debug}
+            ctx.case(("status", status, bool(loc), debug), status != 200)
             if loc:
                 # redirects are urllib's business; what matters: an error status surfaces, a success is a reply
                 if real[0] not in ("reply", "TransportError"):
